@@ -1071,9 +1071,13 @@ class TableDescription(ViewRepresentation):
             pass
         # copy self
         r = TableDescription(
-            table_name=self.table_name,
+            table_name=self.table_name if self.table_name_was_set_by_user else None,
             column_names=self.column_names,
             qualifiers=self.qualifiers,
+            sql_meta=self.sql_meta,
+            head=self.head,
+            limit_was=self.limit_was,
+            nrows=self.nrows,
         )
         return r
 
